@@ -13,6 +13,7 @@
 # limitations under the License.
 
 
+from copy import copy
 from typing import List
 from typing import Tuple
 
@@ -152,6 +153,8 @@ class PerceptionEvaluationManager(_EvaluationMangerBase):
             **self.filtering_params,
         )
 
+        # Filtered objects are set to a copy, the frame held by the loaded dataset is kept as it is.
+        frame_ground_truth = copy(frame_ground_truth)
         frame_ground_truth.objects = filter_objects(
             objects=frame_ground_truth.objects,
             is_gt=True,
